@@ -51,6 +51,9 @@ def handleRepo (line : String) : String :=
     let ops := (words req).drop 1
     let outs := words res
     if ops.length != outs.length then "bad" else
+    -- the model's directory is a flat map of plain file names: a history that plants a sub directory is outside the
+    -- model and is judged against the specification only (on what the Go code did to the directory)
+    let flat := !ops.any (·.startsWith "plantdir:")
     let (_, diffs, viols, _) := (ops.zip outs).foldl (fun (acc : Dir × List String × List String × List (String × String)) (x : String × String) =>
       let (d, diffs, viols, prev) := acc
       let (op, out) := x
@@ -66,13 +69,13 @@ def handleRepo (line : String) : String :=
             | some cs => let ns := (cs.map (·.1)).mergeSort (fun a b => decide (a ≤ b)); s!"ok:{ns.length}:{";".intercalate ns}"
             | none => "err", d)
         | _ => ("?", d)
-      let diffs := if (mres != goRes || listing d' != goList) && diffs.length < 2 then diffs ++ [s!"{op}:model={mres}"] else diffs
+      let diffs := if flat && (mres != goRes || listing d' != goList) && diffs.length < 2 then diffs ++ [s!"{op}:model={mres}"] else diffs
       let after := parseListing goList
       let viols := viols ++ (specStepOk op prev after goRes).map (fun t => s!"C18:{t}:{op}")
       (d', diffs, viols, after)) (([] : Dir), [], [], [])
     let ds := if diffs.isEmpty then "agree" else "DIFF " ++ ",".intercalate diffs
     let vs := if viols.isEmpty then "specok" else "VIOL " ++ ",".intercalate (viols.take 3)
-    s!"{ds} | {vs} | repo"
+    s!"{ds} | {vs} | repo{if flat then "" else ".subdir"}"
   | _ => "bad"
 
 end Driver
